@@ -291,13 +291,22 @@ func randPath(r *common.Rng, maxSegs int) pathSpec {
 func main() {
 	c := common.Setup("C18")
 	defer c.Finish()
-	c.Res.Rule = "each case = (operation, root, path arguments spelled over the segment alphabet {\"\", \".\", \"..\", a, b.c, \"d e\", ..x}); exhaustive up to the stated length for the Go oracle, sampled for the in-Coq comparison; distinct = distinct (op, root, args); non-trivial = the spelling contains at least one of \"\", \".\", \"..\" or is absolute"
+	c.Res.Rule = "each case = (operation, root, path arguments spelled over the segment alphabet {\"\", \".\", \"..\", a, b.c, \"d e\", ..x}); exhaustive up to the stated length for the Go oracle, sampled for the in-Coq comparison; distinct = distinct (op, root, args); non-trivial = the spelling contains at least one of \"\", \".\", \"..\" or is absolute; further streams: raw byte strings, histories, end-to-end imports (see the stream-specific counters), letter-case families (roots and targets that differ only in case; non-trivial = an argument holds a case variant of a root component), nested wrappers NewChrootFs(NewChrootFs(fs, lower), upper) (non-trivial = the upper root climbs above \"/\" or the spelling is non-trivial), the loader without a root argument over marker sets"
 	if c.Replay != "" {
 		var irp impReplay
 		var brp ibReplay
+		var nrp nestReplay
+		if err := common.LoadReplay(c.Replay, &nrp); err == nil && nrp.Kind == "nested" {
+			nrp = nrp.unquote()
+			o := observeNested(nrp.Cwd, nrp.Lower, nrp.Upper, nrp.Op, nrp.Args)
+			judgeNested(c, nrp.Cwd, nrp.Lower, nrp.Upper, nrp.Op, nrp.Args, o)
+			c.Count(fmt.Sprint(nrp), true)
+			fmt.Printf("replay nested %s%q: lower root %q, upper root %q (cwd %q): reached=%v innermost=%q failures=%d\n", nrp.Op, nrp.Args, nrp.Lower, nrp.Upper, nrp.Cwd, o.reached, o.paths, len(c.Res.Failures))
+			return
+		}
 		if err := common.LoadReplay(c.Replay, &brp); err == nil && brp.Raw {
-			o := ibObserve(c, brp)
-			ibJudge(c, brp, o)
+			o := ibObserveFamily(c, brp)
+			ibJudgeFamily(c, brp, o)
 			c.Count(fmt.Sprint(brp), true)
 			fmt.Printf("replay %+v: model=%v apps=%v inner-opens=%q cache=%q failures=%d\n", brp, o.ok, o.apps, o.opens, o.cached, len(c.Res.Failures))
 			return
@@ -443,4 +452,10 @@ Notation E := Empty. Notation D := Dot. Notation U := DotDot. Definition n (p:po
 	runImports(c)
 	// 4. the same on raw strings: "@version" suffixes, dotted directory names, module arguments as spelled
 	runImportBytes(c)
+	// 5. letter case: roots and targets that differ only in case, single calls and imports
+	runCase(c)
+	// 6. nested wrappers: NewChrootFs(NewChrootFs(fs, lower), upper), single calls and imports through the loader
+	runNested(c)
+	// 7. no root argument: ConfigureProject looks for a .sysl / .git marker above the module, else takes the module's directory
+	runNoRoot(c)
 }
